@@ -266,7 +266,7 @@ def check(prop, tier, seed):
     coverage = {
         "obligations": len(obligations),
         "discharged": len(discharged),
-        "checker_cmd": "python3-vt pyvc/check.py %s %s  (VC generation from %s working tree; z3-new 5.1 / cvc5 1.0.3 --enum-inst / z3 4.8.12, %ds per obligation per solver)" % (prop, tier, REPO, timeout_s),
+        "checker_cmd": "python3-vt pyvc/check.py %s %s  (VC generation from %s working tree; z3-new 5.1 / cvc5 1.0.3 --enum-inst / z3 4.8.12, %d CPU-seconds per obligation per solver step)" % (prop, tier, REPO, timeout_s),
         "trusted_base": sorted(set(getattr(mod, "TRUSTED", []) + [
             "pyvc VC generator (Python subset semantics, DESIGN section 2)", "SMT solvers z3/cvc5"])),
         "functions_under_contract": functions,
